@@ -18,6 +18,9 @@ def hostile_trace(rng, n):
         if r < 0.03:
             img = ic.random_image(rng, biased=rng.random() < 0.5, n=rng.choice([5, 60, 237]))
             ops.append({"op": "load", "image": img, "ss": rng.choice([0, 16, 32, 48, 64]), "ps": rng.choice([-1, 0, 3, len(img), 255])})
+        elif r < 0.04:
+            ops.append(rng.choice([ic.new_checked(rng, rng.choice([None, ic.random_image(rng, True, 60)])),
+                                   {"op": "load_raw", "image": ic.random_image(rng, rng.random() < 0.5, rng.choice([0, 9, 240]))[:240]}]))
         elif r < 0.07:
             ops += [{"op": "mode", "v": "Assembly"}, {"op": "key_clock", "n": rng.randrange(1, 12)}, {"op": "mode", "v": "Real"}]
         elif r < 0.55:
